@@ -158,8 +158,10 @@ inductive COp
   | deliver (w : Wire) (eph : Eph) (now : Nat)
   | send (p : Bytes) (now : Nat)
   | rekey (eph : Eph) (now : Nat)
-  | hs
+  | hs (now : Nat)
   | expire (now : Nat)
+  | pend (now : Nat)
+  | unpend
 deriving Repr
 
 structure COut where
@@ -175,13 +177,15 @@ def Chan.step (c : Chan) (lt : IdLt) : COp → Chan × COut
     | (c', none) => (c', { blocked := true })
     | (c', some o) => (c', { sent := o.toList })
   | .rekey eph now => (c.onRekey lt eph now, {})
-  | .hs => let (c', outs) := c.onHandshake; (c', { sent := outs })
+  | .hs now => let (c', outs, _) := c.onHandshakeAt now; (c', { sent := outs })
   | .expire now => (c.expire now, {})
+  | .pend now => let (c', b) := c.pend now; (c', { blocked := b })
+  | .unpend => (c.unpend, {})
 
 def Chan.run (c : Chan) (lt : IdLt) (ops : List COp) : Chan := ops.foldl (fun c op => (c.step lt op).1) c
 
-def Chan.fresh (key : KeyId) (accept : KeyId → Bool) (rejectAfter keepAlive : Nat) : Chan :=
-  { key, accept, rejectAfter, keepAlive }
+def Chan.fresh (key : KeyId) (accept : KeyId → Bool) (rejectAfter keepAlive hsTimeout : Nat) : Chan :=
+  { key, accept, rejectAfter, keepAlive, hsTimeout }
 
 /-! ### reliable exchange between two channels -/
 
@@ -200,7 +204,7 @@ def exchangeRound (lt : IdLt) (A B : Chan) (toB : List Wire) (ephA ephB now : Na
 
 /-- A's handshake timer fires and the network is reliable for three round trips -/
 def reliableSuffix (lt : IdLt) (A B : Chan) (eph now : Nat) : Chan × Chan :=
-  let (A, out) := A.onHandshake
+  let (A, out, _) := A.onHandshakeAt now
   let (A, B, o) := exchangeRound lt A B out eph (eph + 1) (now + 1)
   let (A, B, o) := exchangeRound lt A B o (eph + 2) (eph + 3) (now + 2)
   let (A, B, _) := exchangeRound lt A B o (eph + 4) (eph + 5) (now + 3)
@@ -213,30 +217,30 @@ def Established (lt : IdLt) (A B : Chan) (now : Nat) (p : Bytes) : Prop :=
 
 /-- from fresh channels: A's pending Send arms its rekey timer; once the network is reliable the Send completes
     within three round trips (no timeout inside the window) -/
-def EstablishFresh (kA kB : KeyId) (ra ka : Nat) (lt : IdLt) (t0 : Nat) (p : Bytes) : Prop :=
-  10 ≤ ra → 10 ≤ ka →
-  let A := (Chan.fresh kA (fun k => k == kB) ra ka).onRekey lt 100 t0
-  let B := Chan.fresh kB (fun k => k == kA) ra ka
+def EstablishFresh (kA kB : KeyId) (ra ka ht : Nat) (lt : IdLt) (t0 : Nat) (p : Bytes) : Prop :=
+  10 ≤ ra → 10 ≤ ka → 10 ≤ ht →
+  let A := (Chan.fresh kA (fun k => k == kB) ra ka ht).onRekey lt 100 t0
+  let B := Chan.fresh kB (fun k => k == kA) ra ka ht
   let (A, B) := reliableSuffix lt A B 102 t0
   Established lt A B (t0 + 4) p
 
 /-- the peer restarts with a fresh channel — after the connection was established, or after B had only seen
     A's first InitHello — and its new handshake completes within three round trips although B still holds the
     stale sessions -/
-def EstablishAfterRestart (kA kB : KeyId) (ra ka : Nat) (lt : IdLt) (t0 : Nat) (p : Bytes) : Prop :=
-  30 ≤ ra → 30 ≤ ka →
-  let A0 := (Chan.fresh kA (fun k => k == kB) ra ka).onRekey lt 100 t0
-  let B0 := Chan.fresh kB (fun k => k == kA) ra ka
+def EstablishAfterRestart (kA kB : KeyId) (ra ka ht : Nat) (lt : IdLt) (t0 : Nat) (p : Bytes) : Prop :=
+  30 ≤ ra → 30 ≤ ka → 30 ≤ ht →
+  let A0 := (Chan.fresh kA (fun k => k == kB) ra ka ht).onRekey lt 100 t0
+  let B0 := Chan.fresh kB (fun k => k == kA) ra ka ht
   -- (a) restart after establishment
   (let (_, B) := reliableSuffix lt A0 B0 102 t0
-   let A' := (Chan.fresh kA (fun k => k == kB) ra ka).onRekey lt 200 (t0 + 5)
+   let A' := (Chan.fresh kA (fun k => k == kB) ra ka ht).onRekey lt 200 (t0 + 5)
    let (A', B) := reliableSuffix lt A' B 202 (t0 + 5)
    Established lt A' B (t0 + 9) p) ∧
   -- (b) restart after B saw only the first InitHello
-  (let (A1, out) := A0.onHandshake
+  (let (A1, out, _) := A0.onHandshakeAt t0
    let (B, _) := B0.deliverAll lt out 102 (t0 + 1)
    let _ := A1
-   let A' := (Chan.fresh kA (fun k => k == kB) ra ka).onRekey lt 200 (t0 + 5)
+   let A' := (Chan.fresh kA (fun k => k == kB) ra ka ht).onRekey lt 200 (t0 + 5)
    let (A', B) := reliableSuffix lt A' B 202 (t0 + 5)
    Established lt A' B (t0 + 9) p)
 
